@@ -154,6 +154,11 @@ async fn scenario(c: IdentCase) -> Obs {
         c.keys.iter().position(|x| (x.a, x.b, &x.name, x.n) == (k.a, k.b, &k.name, k.n)).unwrap_or(ki)
     };
     let mut written_alive: BTreeMap<usize, bool> = BTreeMap::new();
+    // perfect network, reliable KEEP_ALL reader: every written sample must be presented (a sample for which the
+    // reader cannot derive an instance is dropped, which is how a wrong key extraction can also show)
+    let mut writes_done = 0usize;
+    let mut data_received = 0usize;
+    let mut any_fragmented = false;
     for op in &c.ops {
         match op {
             IOp::Write { key, blob_len, pad } => {
@@ -164,9 +169,11 @@ async fn scenario(c: IdentCase) -> Obs {
                     return o;
                 }
                 written_alive.insert(canon(ki), true);
+                writes_done += 1;
                 // serialized size roughly 4+3+2(+pad)+4+4+len(name)+1+8+4+blob
                 if (*blob_len as u32 + c.keys[ki].name.len() as u32 + 40) > c.frag {
                     classes.insert("fragmented_no_key_hash_on_wire".to_string());
+                    any_fragmented = true;
                 } else {
                     classes.insert("key_hash_on_wire".to_string());
                 }
@@ -201,6 +208,7 @@ async fn scenario(c: IdentCase) -> Obs {
                 let ih: [u8; 16] = s.sample_info.instance_handle.into();
                 match &s.data {
                     Some(d) => {
+                        data_received += 1;
                         let ki = key_of(d);
                         if ki == usize::MAX {
                             o.verdict = Some(("C11:e2e:unknown-key-received".into(), "reader presented a sample whose key was never written".into()));
@@ -227,6 +235,19 @@ async fn scenario(c: IdentCase) -> Obs {
                 }
             }
         }
+    }
+    if data_received < writes_done {
+        exec::sleep_ms(2_000).await;
+        if let Ok(samples) = r.take(1000, ANY_SAMPLE_STATE, ANY_VIEW_STATE, ANY_INSTANCE_STATE).await {
+            data_received += samples.iter().filter(|s| s.data.is_some()).count();
+        }
+    }
+    if data_received < writes_done {
+        o.verdict = Some((
+            format!("C11:e2e:written-sample-never-presented:{}", if any_fragmented { "with-samples-lacking-a-key-hash" } else { "all-with-key-hash" }),
+            format!("{writes_done} samples were written over a loss-free network to a reliable KEEP_ALL reader, {data_received} were presented ({} representation, fragment size {})", if c.xcdr2 { "XCDR2" } else { "XCDR1" }, c.frag),
+        ));
+        return o;
     }
     o.classes = classes.into_iter().collect();
     o
@@ -259,7 +280,7 @@ pub fn main(ctx: &Ctx) {
             max_shrink_iters: 200,
             limits: Limits { cpu_s: 20, wall_s: 120, as_bytes: 4 << 30 },
             meta: Meta {
-                rule: "end-to-end half of C11: keyed type with a nested-struct key, a string key and an int64 key; 2-4 generated key values (boundary-similar strings and numbers), writes with payloads below and above the fragment size (fragmented samples carry no key hash), dispose and unregister, XCDR1 or XCDR2 representation; oracle: writer register_instance handles are equal iff keys are equal, and every SampleInfo.instance_handle the reader reports (data, dispose, unregister) equals the writer's handle of that key; non-trivial = a fragmented sample (no key hash on the wire) was delivered; distinct = hash of the case",
+                rule: "end-to-end half of C11: keyed type with a nested-struct key, a string key and an int64 key; 2-4 generated key values (boundary-similar strings and numbers), writes with payloads below and above the fragment size (fragmented samples carry no key hash), dispose and unregister, XCDR1 or XCDR2 representation; oracle: writer register_instance handles are equal iff keys are equal, and every SampleInfo.instance_handle the reader reports (data, dispose, unregister) equals the writer's handle of that key, and every written sample is presented (loss-free network); non-trivial = a fragmented sample (no key hash on the wire) was delivered; distinct = hash of the case",
                 assumptions: &["deterministic simulation, loss-free network"],
                 nontrivial_floor: 100,
             },
